@@ -29,6 +29,7 @@ import (
 	"strconv"
 	"strings"
 	"sync"
+	"unicode/utf8"
 
 	"github.com/emersion/go-message/textproto"
 	"github.com/emersion/go-sasl"
@@ -262,6 +263,16 @@ func (s *Session) startDelivery(ctx context.Context, from string, opts smtp.Mail
 		)
 	}
 
+	// Addresses are UTF-8 (RFC 6531), anything else cannot be stored
+	// and passed on as is.
+	if !utf8.ValidString(from) {
+		return "", &exterrors.SMTPError{
+			Code:         501,
+			EnhancedCode: exterrors.EnhancedCode{5, 1, 7},
+			Message:      "Sender address is not a valid UTF-8 string",
+		}
+	}
+
 	// INTERNATIONALIZATION: Do not permit non-ASCII addresses unless SMTPUTF8 is
 	// used.
 	if !opts.UTF8 {
@@ -441,6 +452,16 @@ func (s *Session) Rcpt(to string, opts *smtp.RcptOptions) error {
 }
 
 func (s *Session) rcpt(ctx context.Context, to string, opts *smtp.RcptOptions) error {
+	// Addresses are UTF-8 (RFC 6531), anything else cannot be stored
+	// and passed on as is.
+	if !utf8.ValidString(to) {
+		return &exterrors.SMTPError{
+			Code:         501,
+			EnhancedCode: exterrors.EnhancedCode{5, 1, 3},
+			Message:      "Recipient address is not a valid UTF-8 string",
+		}
+	}
+
 	// INTERNATIONALIZATION: Do not permit non-ASCII addresses unless SMTPUTF8 is
 	// used.
 	if !address.IsASCII(to) && !s.opts.UTF8 {
